@@ -69,6 +69,17 @@ def templates(rng, cfg_proto=None):
             out.append({"cfg": cfg, "abs": [], "events": [k(c, 1) for c, n, o in keys[:4]], "tag": "template-extremes-held"})
             out.append({"cfg": cfg, "abs": [], "events": tap(60) + [k(34, 1)], "tag": "template-extremes-held"})               # 115 + 12 = 127
             out.append({"cfg": cfg, "abs": [], "events": tap(61) + [k(35, 1)] + tap(60) + [k(30, 1)], "tag": "template-extremes-held"})   # 12 - 12 = 0
+    # the complete exit chord is down (the application has been asked to terminate, the device lives on until it does): other keys released
+    # meanwhile still release their notes
+    for cmode in devgen.CMODES:
+        for exitk in ([56, 1], [1, 56], [56, 1, 42]):
+            m0 = [{"sub": "", "code": 30, "note": 60, "off": 0}, {"sub": "", "code": 31, "note": 64, "off": 0}, {"sub": "", "code": 56, "note": 54, "off": 0}]
+            cfg = {"mappings": [{"name": "M0", "midi": m0, "analog": [], "dz": [], "defdz": [], "subs": []}], "actions": [{"code": 1, "action": "panic"}],
+                   "exitseq": exitk, "cmode": cmode, "octave": 0, "semitone": 0, "channel": 1, "mapping": 0, "velocity": 64}
+            ev = [k(30, 1), k(31, 1)] + [k(c, 1) for c in exitk] + [k(30, 0)] + [k(c, 0) for c in reversed(exitk)] + [k(31, 0)] + tap(30) + [k(30, 1)]
+            out.append({"cfg": cfg, "abs": [], "events": ev, "tag": "template-exit-chord-down"})
+            for j in range(3, len(ev)):
+                out.append({"cfg": cfg, "abs": [], "events": ev[:j], "tag": "template-exit-chord-down"})
     # keys of NAMED sub-handlers (a pad's "Touchpad", a second keyboard interface) held at disconnect - alone, together with the same code on
     # the unnamed handler, after a tap
     for cmode in devgen.CMODES:
